@@ -254,6 +254,12 @@ StepRestart(e) ==
            ELSE IF served \ DOMAIN blocks # {} THEN "C09:block_that_was_never_accepted_is_in_the_chain_state_after_a_restart"
            ELSE IF KeepS = {} THEN "C08:restarted_node_has_no_chain_state"
            ELSE IF p.head \notin KeepS \/ (\E x \in KeepS : blocks[x].height > blocks[p.head].height) THEN "C08:restarted_head_is_not_of_the_greatest_height"
+           \* for the restarted process the blocks arrive in the order the store hands them over: its head is the first of them of the greatest height
+           ELSE IF "C04" \in Focus /\ (LET ro == SelectSeq(e.read_order, LAMBDA x : x \in KeepS)
+                                           top == {x \in KeepS : \A y \in KeepS : blocks[y].height <= blocks[x].height}
+                                           firstTop == SelectSeq(ro, LAMBDA x : x \in top)
+                                       IN Len(firstTop) > 0 /\ p.head # firstTop[1])
+                THEN "C04:head_after_a_restart_is_not_the_first_block_of_greatest_height_in_the_order_the_store_returns_them"
            ELSE IF Len(p.pool) # 0 THEN "C13:pending_transaction_survived_a_restart_without_being_submitted_again"
            ELSE ""
   IN /\ UNCHANGED << tid, miner, txd, arr, arrOrd, chainT, locT, outT, inT >>
